@@ -3,6 +3,8 @@
 V=${V2:-/tmp/v5}; SEEDS="${SEEDS:-1 2 3 4 5 6}"
 rsync -a --delete --exclude replays --exclude evidence /verif/ "$V"/
 mkdir -p "$V/replays" "$V/evidence"
+# the copy is put back to the committed state of tracked files (half-made edits in /verif must not leak into a run)
+git -C "$V" checkout -q -- . 2>/dev/null || true
 cd "$V"
 for seed in $SEEDS; do
   for c in C01 C02 C03 C04 C05 C06 C07 C08 C09 C10 C11 C12 C13 C14 C15 C16 C17 C18; do
